@@ -330,7 +330,7 @@ Qed.
 
 Lemma render_nulfree p : piece_ok p -> nulfree (render p).
 Proof.
-  destruct p as [t|t|z]; cbn [piece_ok render]; try (intros H; exact H). intros _.
+  destruct p as [t|t|z|]; cbn [piece_ok render]; try (intros H; exact H); [|constructor]. intros _.
   destruct z as [|q|q]; cbn [dec_of_Z].
   - constructor; [lia|constructor].
   - apply dec_digits_nulfree. constructor.
@@ -347,6 +347,7 @@ Section Refinement.
   Variable rem_checks : bool.
   Variable assign_self_safe : bool.
   Variable concat_self_safe : bool.
+  Variable format_self_safe : bool.
   (* what the proofs need from the C text: every realloc leaves room for the terminator,
      String_Rem moves the tail behind the match (with its terminator) and checks for NULL *)
   Hypothesis Hassign : forall vl, vl + 1 <= assign_alloc vl.
@@ -358,11 +359,13 @@ Section Refinement.
   (* needed only for assign(s, s) / concat(s, s): the argument is read after the realloc *)
   Hypothesis Hasafe : assign_self_safe = true.
   Hypothesis Hcsafe : concat_self_safe = true.
+  (* needed only for print_to(s, pos, "..%s..", .., s, ..) *)
+  Hypothesis Hfsafe : format_self_safe = true.
 
   Notation step := (m_step assign_alloc concat_alloc resize_alloc format_alloc rem_count rem_checks
-                           assign_self_safe concat_self_safe).
+                           assign_self_safe concat_self_safe format_self_safe).
   Notation run := (m_run assign_alloc concat_alloc resize_alloc format_alloc rem_count rem_checks
-                         assign_self_safe concat_self_safe).
+                         assign_self_safe concat_self_safe format_self_safe).
 
   Lemma assign_refines b v : nulfree v -> exists b', m_assign assign_alloc b v = Some b' /\ repr b' v.
   Proof.
@@ -510,24 +513,21 @@ Section Refinement.
   Qed.
 
   Lemma print_refines ps : forall b s pos, repr b s -> Forall piece_ok ps ->
-    exists b', m_print_to format_alloc b pos ps = Some (b', pos + length (concat (map render ps))) /\
-               repr b' (spec_print s pos ps).
+    exists b', m_print_to format_alloc format_self_safe b pos ps = Some (b', snd (spec_print s pos ps)) /\
+               repr b' (fst (spec_print s pos ps)).
   Proof.
-    induction ps as [|p ps IH]; intros b s pos Hr Hok; cbn [m_print_to map concat].
-    - exists b. cbn [length]. rewrite Nat.add_0_r. split; [reflexivity|exact Hr].
-    - apply Forall_cons_iff in Hok as [Hp Hps]. pose proof (render_nulfree _ Hp) as Hn.
-      destruct (format_refines b s pos (render p) Hr Hn) as [b1 [E1 R1]]. rewrite E1.
-      destruct (IH b1 _ (pos + length (render p)) R1 Hps) as [b' [E' R']].
-      exists b'. rewrite E', app_length, Nat.add_assoc. split; [reflexivity|].
-      replace (spec_print s pos (p :: ps)) with
-        (spec_print (if pos <=? length s then firstn pos s ++ render p else s) (pos + length (render p)) ps); [exact R'|].
-      unfold spec_print. destruct ps as [|q ps'].
-      + cbn [map concat]. rewrite app_nil_r. reflexivity.
-      + destruct (Nat.leb_spec pos (length s)) as [Hle|Hgt].
-        * assert (Hl : length (firstn pos s ++ render p) = pos + length (render p))
-            by (rewrite app_length, firstn_length; lia).
-          rewrite Hl, Nat.leb_refl. rewrite <- Hl at 1. rewrite firstn_all, <- app_assoc. reflexivity.
-        * destruct (Nat.leb_spec (pos + length (render p)) (length s)); [lia|reflexivity].
+    induction ps as [|p ps IH]; intros b s pos Hr Hok; cbn [m_print_to spec_print].
+    - exists b. split; [reflexivity|exact Hr].
+    - apply Forall_cons_iff in Hok as [Hp Hps].
+      assert (Ht : (match p with
+                    | PSelf => if format_self_safe then c_str b else None
+                    | _ => Some (render p)
+                    end) = Some (piece_text s p) /\ nulfree (piece_text s p)).
+      { destruct p; cbn [piece_text]; try (split; [reflexivity|apply render_nulfree; exact Hp]).
+        rewrite Hfsafe, (repr_c_str _ _ Hr). split; [reflexivity|exact (proj1 Hr)]. }
+      destruct Ht as [Et Hn]. rewrite Et.
+      destruct (format_refines b s pos (piece_text s p) Hr Hn) as [b1 [E1 R1]]. rewrite E1.
+      exact (IH b1 _ (pos + length (piece_text s p)) R1 Hps).
   Qed.
 
   Lemma new_refines v : nulfree v -> exists b, m_new assign_alloc v = Some b /\ repr b v.
@@ -538,7 +538,7 @@ Section Refinement.
     exists b', step b o = (b', snd (spec_step s o)) /\ repr b' (fst (spec_step s o)).
   Proof.
     intros Hr Hok. pose proof (repr_c_str _ _ Hr) as Hc.
-    destruct o as [v|v|v|n|v|v|v|v| | | |pos ps| | | | | | | ]; cbn [m_step spec_step fst snd op_ok] in *.
+    destruct o as [v|v|v|n|v|v|v|v| | | |pos ps| | | | | | | ]; cbn [m_step spec_step op_ok] in *; cbn [fst snd].
     - destruct (assign_refines b v Hok) as [b' [E R]]. rewrite E. exists b'. split; [reflexivity|exact R].
     - destruct (concat_refines b s v Hr Hok) as [b' [E R]]. rewrite E. exists b'. split; [reflexivity|exact R].
     - destruct (concat_refines b s v Hr Hok) as [b' [E R]]. rewrite E. exists b'. split; [reflexivity|exact R].
@@ -663,10 +663,10 @@ From CelloV Require Import Generated.
 Definition c_new := m_new string_assign_alloc.
 Definition c_step := m_step string_assign_alloc string_concat_alloc string_resize_alloc
                             string_format_alloc string_rem_count string_rem_checks
-                            string_assign_self_safe string_concat_self_safe.
+                            string_assign_self_safe string_concat_self_safe string_format_self_safe.
 Definition c_run := m_run string_assign_alloc string_concat_alloc string_resize_alloc
                           string_format_alloc string_rem_count string_rem_checks
-                          string_assign_self_safe string_concat_self_safe.
+                          string_assign_self_safe string_concat_self_safe string_format_self_safe.
 
 (* the rules re-extracted from src/String.c (Generated.v) are the ones the proofs need *)
 Lemma gen_assign : forall vl, vl + 1 <= string_assign_alloc vl.
@@ -687,17 +687,19 @@ Lemma gen_asafe : string_assign_self_safe = true.
 Proof. reflexivity. Qed.
 Lemma gen_csafe : string_concat_self_safe = true.
 Proof. reflexivity. Qed.
+Lemma gen_fsafe : string_format_self_safe = true.
+Proof. reflexivity. Qed.
 
 Theorem c_step_refines b s o : repr b s -> op_ok o ->
   exists b', c_step b o = (b', snd (spec_step s o)) /\ repr b' (fst (spec_step s o)).
-Proof. exact (step_refines _ _ _ _ _ _ _ _ gen_assign gen_concat gen_resize gen_format gen_rem gen_chk gen_asafe gen_csafe b s o). Qed.
+Proof. exact (step_refines _ _ _ _ _ _ _ _ _ gen_assign gen_concat gen_resize gen_format gen_rem gen_chk gen_asafe gen_csafe gen_fsafe b s o). Qed.
 
 Theorem c_history_refines v0 ops : nulfree v0 -> Forall op_ok ops ->
   exists b0 bf, c_new v0 = Some b0 /\ c_run b0 ops = (fst (spec_run v0 ops), bf) /\
                 repr bf (snd (spec_run v0 ops)).
 Proof.
   intros Hv Hok. destruct (new_refines _ gen_assign v0 Hv) as [b0 [E R]].
-  destruct (run_refines _ _ _ _ _ _ _ _ gen_assign gen_concat gen_resize gen_format gen_rem gen_chk gen_asafe gen_csafe ops b0 v0 R Hok)
+  destruct (run_refines _ _ _ _ _ _ _ _ _ gen_assign gen_concat gen_resize gen_format gen_rem gen_chk gen_asafe gen_csafe gen_fsafe ops b0 v0 R Hok)
     as [bf [Er Rf]].
   exists b0, bf. split; [exact E|]. split; [exact Er|exact Rf].
 Qed.
@@ -706,7 +708,7 @@ Theorem c_history_no_crash v0 ops : nulfree v0 -> Forall op_ok ops ->
   exists b0, c_new v0 = Some b0 /\ ~ In SCrash (fst (c_run b0 ops)).
 Proof.
   intros Hv Hok. destruct (new_refines _ gen_assign v0 Hv) as [b0 [E R]]. exists b0. split; [exact E|].
-  exact (run_no_crash _ _ _ _ _ _ _ _ gen_assign gen_concat gen_resize gen_format gen_rem gen_chk gen_asafe gen_csafe ops b0 v0 R Hok).
+  exact (run_no_crash _ _ _ _ _ _ _ _ _ gen_assign gen_concat gen_resize gen_format gen_rem gen_chk gen_asafe gen_csafe gen_fsafe ops b0 v0 R Hok).
 Qed.
 
 Lemma new_empty_repr : repr m_new_empty [].
@@ -716,7 +718,7 @@ Theorem c_history_refines_from_empty ops : Forall op_ok ops ->
   exists bf, c_run m_new_empty ops = (fst (spec_run [] ops), bf) /\ repr bf (snd (spec_run [] ops)).
 Proof.
   intros Hok.
-  exact (run_refines _ _ _ _ _ _ _ _ gen_assign gen_concat gen_resize gen_format gen_rem gen_chk gen_asafe gen_csafe
+  exact (run_refines _ _ _ _ _ _ _ _ _ gen_assign gen_concat gen_resize gen_format gen_rem gen_chk gen_asafe gen_csafe gen_fsafe
            ops m_new_empty [] new_empty_repr Hok).
 Qed.
 
@@ -746,3 +748,31 @@ Qed.
 Theorem self_argument_old_shapes_undefined (b : list (option nat)) (fa : nat -> nat) (fc : nat -> nat -> nat) :
   m_assign_self fa false b = None /\ m_concat_self fc false b = None.
 Proof. split; reflexivity. Qed.
+
+(* print_to without the target among its arguments, in closed form: everything from pos on is
+   replaced by the rendered text; behind the terminator (or without any piece) nothing changes *)
+Theorem spec_print_closed ps : forall s pos, Forall (fun p => p <> PSelf) ps ->
+  spec_print s pos ps =
+  (match ps with
+   | [] => s
+   | _ => if pos <=? length s then firstn pos s ++ concat (map render ps) else s
+   end, pos + length (concat (map render ps))).
+Proof.
+  induction ps as [|p ps IH]; intros s pos Hns; cbn [spec_print map concat].
+  - cbn [length]. rewrite Nat.add_0_r. reflexivity.
+  - apply Forall_cons_iff in Hns as [Hp Hps].
+    assert (Et : piece_text s p = render p) by (destruct p; try reflexivity; congruence).
+    rewrite Et, IH by assumption. rewrite app_length, Nat.add_assoc. f_equal.
+    destruct ps as [|q ps'].
+    + cbn [map concat]. rewrite app_nil_r. reflexivity.
+    + destruct (Nat.leb_spec pos (length s)) as [Hle|Hgt].
+      * assert (Hl : length (firstn pos s ++ render p) = pos + length (render p))
+          by (rewrite app_length, firstn_length; lia).
+        rewrite Hl, Nat.leb_refl. rewrite <- Hl at 1. rewrite firstn_all, <- app_assoc. reflexivity.
+      * destruct (Nat.leb_spec (pos + length (render p)) (length s)); [lia|reflexivity].
+Qed.
+
+(* before the repair of String_Format_To: the target as a "%s" argument is read after the realloc *)
+Theorem format_self_old_shape_undefined (b : list (option nat)) (fa : nat -> nat -> nat) pos r :
+  m_print_to fa false b pos (PSelf :: r) = None.
+Proof. reflexivity. Qed.
